@@ -25,16 +25,21 @@ RECURSIVE MaxOfSeq(_, _)
 MaxOfSeq(q, i) == IF i = 0 THEN 0 ELSE LET m == MaxOfSeq(q, i - 1) IN IF q[i] > m THEN q[i] ELSE m
 MaxOfMatrix(m) == MaxOfSeq([i \in DOMAIN m |-> MaxOfSeq(m[i], Len(m[i]))], Len(m))
 WholePct(x) == x % 10000 = 0
+\* how Python prints m / d for the denominators the boards use (fractional boards hold floats: 5.0, 2.5, 0.75)
+RewardText(m, d) ==
+    IF d = 1 THEN ToString(m)
+    ELSE ToString(m \div d) \o (CASE (m % d) * 4 = 0 -> ".0" [] (m % d) * 4 = d -> ".25"
+                                   [] (m % d) * 4 = 2 * d -> ".5" [] (m % d) * 4 = 3 * d -> ".75" [] OTHER -> ".?")
 ManualName ==
     "inputs/manual_robot_w" \o ToString(S.board.W) \o "_l" \o ToString(S.board.L)
-      \o "_r" \o ToString(MaxOfMatrix(S.board.rewards))
+      \o "_r" \o RewardText(MaxOfMatrix(S.board.rewards), S.board.rden)
       \o "_rb" \o ToString(S.probs.rb \div 10000) \o "_lb" \o ToString(S.probs.lb \div 10000)
       \o "_tb" \o ToString(S.probs.tb \div 10000) \o "_"
       \o (IF MaxOfMatrix(S.board.moves) = 3 THEN "force_down" ELSE "") \o ".py"
 \* rewards over a common denominator: emitted reward / RScale = board numerator / rden
 ScaleRewards(G, k) == [G EXCEPT !.reward = [s \in DOMAIN G.reward |-> G.reward[s] * k]]
 ManualNameClauses ==
-    IF S.via # "manual" \/ S.board.rden # 1 \/ ~(WholePct(S.probs.rb) /\ WholePct(S.probs.lb) /\ WholePct(S.probs.tb)) THEN {}
+    IF S.via # "manual" \/ ~(WholePct(S.probs.rb) /\ WholePct(S.probs.lb) /\ WholePct(S.probs.tb)) THEN {}
     ELSE IF S.created = <<ManualName>> THEN {} ELSE {"C17.ManualName expected " \o ManualName}
 
 Loaded == S.loaderr = "" /\ S.keys = <<"game_a", "game_b", "game_c">>
